@@ -33,6 +33,8 @@ SYMMETRIC_PERMS = {"REV"}
 
 def f_transpose(f):
     k = f[0]
+    if k == "c":
+        return f
     if k in ("u", "m"):
         return (k, f[1], not f[2], f[3], f[4])
     if k == "p":
@@ -42,6 +44,8 @@ def f_transpose(f):
 
 def f_conj(f):
     k = f[0]
+    if k == "c":
+        return f
     if k in ("u", "m"):
         return f if f[4] else (k, f[1], f[2], not f[3], f[4])
     if k == "d":
@@ -61,7 +65,13 @@ def w_adjoint(w):
     return w_conj(w_transpose(w))
 
 
+def f_inverse_scalar(f):
+    return ("c", f[1], -f[2])
+
+
 def _cancels(a, b):
+    if a[0] == "c" and b[0] == "c" and a[1] == b[1]:
+        return a[2] == -b[2]
     if a[0] == "u" and b[0] == "u" and a[1] == b[1]:
         if a[4]:   # real orthogonal: inverse is the transpose
             return a[2] != b[2]
@@ -72,6 +82,9 @@ def _cancels(a, b):
 
 
 def simplify(w):
+    # real scalar factors commute with everything: collect them in front
+    sc = sorted([f for f in w if f[0] == "c"], key=lambda f: (f[1], f[2]))
+    w = tuple(sc) + tuple(f for f in w if f[0] != "c")
     out = []
     for f in w:
         if out and _cancels(out[-1], f):
@@ -100,6 +113,8 @@ def show_word(w):
             return s
         if f[0] == "p":
             return f[1] + ("^T" if f[2] else "")
+        if f[0] == "c":
+            return f[1] if f[2] > 0 else "1/" + f[1]
         return "diag(%s(%s))" % (show_fn(f[1]), f[2])
     return " ".join(one(f) for f in w) or "1"
 
@@ -114,15 +129,16 @@ def show_fn(fn):
 class Vec:
     """x' = W^T f(x): base vector `base`, scalar function chain `fn`, applied permutations W = p1 p2 ..."""
 
-    def __init__(self, base, fn=(), perms=(), order=None, nonneg=False):
+    def __init__(self, base, fn=(), perms=(), order=None, nonneg=False, scal=()):
         self.base, self.fn, self.perms, self.order, self.nonneg = base, tuple(fn), tuple(perms), order, nonneg
+        self.scal = tuple(scal)          # real scalar factors ('c', name, +-1) multiplying every entry
 
     def key(self):
-        return (self.base, self.fn, self.perms, self.order, self.nonneg)
+        return (self.base, self.fn, self.perms, self.order, self.nonneg, self.scal)
 
     def diag_word(self):
         inv = tuple(f_transpose(p) for p in reversed(self.perms))
-        return inv + (("d", self.fn, self.base),) + self.perms
+        return self.scal + inv + (("d", self.fn, self.base),) + self.perms
 
     def show(self):
         return "%s(%s) perms[%s] order=%s" % (show_fn(self.fn), self.base, show_word(self.perms), self.order)
@@ -148,6 +164,8 @@ class Interp:
         self.ndec = 0
         self.path = []             # readable description of the path
         self.base_sign = {}        # base vector -> 'nonneg' / 'nonpos' (path assumptions)
+        self.risky = []            # operations whose validity needs a fact that no path condition provides
+        self.scalar_pos = set()    # scalar locals known to be > 0 on this path
 
     def new_loc(self, v):
         self.nloc += 1
@@ -223,7 +241,14 @@ class Interp:
             self.ndec += 1
             self.path.append("%s%s @%s" % ("" if truth else "not ", v[1], n.get("l")))
             if truth and v[2] is not None:
-                self.base_sign[v[2][0]] = v[2][1]
+                if v[2][0] == "diag":
+                    # on this path the matrix is diagonal: it equals diag of its own diagonal
+                    self.axioms.append((v[2][1], (("d", (), "dm"),), "path assumption: the input matrix is diagonal, m = diag(dm)"))
+                    self.diag_words = getattr(self, "diag_words", []) + [v[2][1]]
+                elif v[2][0] == "scalar_pos":
+                    self.scalar_pos.add(v[2][1])
+                else:
+                    self.base_sign[v[2][0]] = v[2][1]
             return truth
         raise Undecided("%s:%s: condition %s is not a null test or a compile-time constant" % (f["file"], n.get("l"), n0.get("k")))
 
@@ -251,9 +276,12 @@ class Interp:
             return ("uninit",)
         if init is not None:
             try:
-                return self.rv(self.ev(init, env, depth, f))
+                v0 = self.rv(self.ev(init, env, depth, f))
             except Undecided:
                 return ("opaque", d.get("name"))
+            if v0[0] == "scalar":
+                return ("scalar", "%s@%s" % (d.get("name"), d.get("id")), v0[2])
+            return v0
         return ("opaque", d.get("name"))
 
     def solve(self, kind, a, f, n, real):
@@ -347,6 +375,8 @@ class Interp:
                 return a
         if k == "BinaryOperator" and n.get("op") in ("<", "<=", ">", ">="):
             return self.data_condition(n, env, depth, f)
+        if k == "BinaryOperator" and n.get("op") in ("==", "!=", "&&", "||"):
+            return self.data_condition_eq(n, env, depth, f)
         if k == "BinaryOperator" and n.get("op") == "=":
             # scalar stores (error bounds, INFO): no effect on the decomposition outputs
             lhs = self.ev(n["c"][0], env, depth, f)
@@ -383,6 +413,14 @@ class Interp:
         def zero(x):
             return x is not None and x.get("k") in ("IntegerLiteral", "FloatingLiteral") and float(x.get("v", x.get("s", 1)) or 1) == 0.0
 
+        # scalar local compared with zero
+        if l is not None and l.get("k") == "DeclRefExpr" and zero(r) and op in (">",):
+            try:
+                sv = self.rv(self.ev(l, env, depth, f))
+            except Undecided:
+                sv = None
+            if sv is not None and sv[0] == "scalar" and sv[1]:
+                return ("datacond", "%s > 0" % sv[1].split("@")[0], ("scalar_pos", sv[1]))
         e = elem(l)
         if e is not None and zero(r):
             v, i, nlen = e
@@ -396,6 +434,57 @@ class Interp:
                 if op in ("<=", "<") and hi_end:
                     info = (v.base, "nonpos")
         return ("datacond", txt, info)
+
+    def data_condition_eq(self, n, env, depth, f):
+        """equality tests on run-time values: explored both ways; a conjunction of `X(i,j) == 0` over all off-diagonal entries of
+        a square matrix X tells that X is diagonal on the true branch"""
+        leaves = []
+
+        def conj(x):
+            x = strip_all(x)
+            if x is not None and x.get("k") == "BinaryOperator" and x.get("op") == "&&":
+                conj(x["c"][0])
+                conj(x["c"][1])
+            else:
+                leaves.append(x)
+        conj(n)
+        info = None
+        zero_entries, words, dim = set(), set(), None
+        plain = True
+        for x in leaves:
+            ok_ = False
+            if x is not None and x.get("iv") is not None:
+                if x.get("iv") in ("0", 0):
+                    plain = False
+                continue             # compile-time conjunct such as N == 2
+            if x is not None and x.get("k") in ("BinaryOperator", "CXXOperatorCallExpr") and x.get("op") == "==":
+                ops = x["c"] if x["k"] == "BinaryOperator" else x["c"][1:]
+                l, r = strip_all(ops[0]), strip_all(ops[1])
+                for a_, b_ in ((l, r), (r, l)):
+                    zb = b_ is not None and (b_.get("iv") in ("0", 0) or str(b_.get("v")) in ("0", "0.0") or
+                                             any(str(y.get("v")) in ("0", "0.0") for y in _walk(b_) if y.get("k") in ("IntegerLiteral", "FloatingLiteral")))
+                    if a_ is not None and a_.get("k") == "CXXOperatorCallExpr" and a_.get("op") == "()" and len(a_.get("c", [])) == 4 and zb:
+                        try:
+                            o = self.ev(a_["c"][1], env, depth, f)
+                        except Undecided:
+                            continue
+                        ii = [strip_all(a_["c"][2]), strip_all(a_["c"][3])]
+                        iv_ = [y.get("iv", y.get("v")) if y is not None else None for y in ii]
+                        val = self.rv(o)
+                        if val[0] == "mat" and None not in iv_:
+                            zero_entries.add((int(iv_[0]), int(iv_[1])))
+                            words.add(val[1])
+                            m_ = re.search(r"Eigen::Matrix<[^,]+(?:<[^>]*>)?,\s*(\d+),\s*(\d+)", str(strip_all(a_["c"][1]).get("t") or ""))
+                            if m_:
+                                dim = (int(m_.group(1)), int(m_.group(2)))
+                            ok_ = True
+            if not ok_:
+                plain = False
+        if plain and len(words) == 1 and dim and dim[0] == dim[1]:
+            need = {(i, j) for i in range(dim[0]) for j in range(dim[1]) if i != j}
+            if need and need <= zero_entries:
+                info = ("diag", list(words)[0])
+        return ("datacond", "equality test on matrix entries" if info else "equality / logical test on run-time values", info)
 
     def obj_of(self, n, env, depth, f):
         me = n["c"][0]
@@ -478,10 +567,12 @@ class Interp:
                 order = None
                 if v.order is not None:
                     order = ("asc" if v.order[0] == "desc" else "desc", v.order[1])
-                self.store[o[1]] = ("vec", Vec(v.base, v.fn, v.perms + (("p", "REV", False),), order, v.nonneg))
+                self.store[o[1]] = ("vec", Vec(v.base, v.fn, v.perms + (("p", "REV", False),), order, v.nonneg, v.scal))
                 return o
-            if name in ("matrix", "array", "eval", "cast", "derived"):
+            if name in ("matrix", "array", "eval", "cast", "derived", "real"):
                 return o if name in ("matrix", "array", "derived") else ("vec", v)
+            if name in ("maxCoeff", "minCoeff", "sum", "mean", "norm", "squaredNorm"):
+                return ("scalar", None, "nonneg" if (v.nonneg or (v.fn and v.fn[-1] == "abs")) else "any")
             if name == "transpose":
                 return ("tview", o[1]) if o[0] == "loc" else ("vec", v)
             if name in ("abs", "cwiseAbs"):
@@ -491,12 +582,12 @@ class Interp:
                     keep = v.order
                 elif v.order is not None and sg == "nonpos":
                     keep = ("asc" if v.order[0] == "desc" else "desc", v.order[1])
-                return ("vec", Vec(v.base, v.fn + ("abs",), v.perms, keep, True))
+                return ("vec", Vec(v.base, v.fn + ("abs",), v.perms, keep, True, tuple(("c", c_[1], c_[2]) for c_ in v.scal)))
             if name == "unaryExpr":
                 fu = self.ev(args[0], env, depth, f)
                 if fu[0] != "functor":
                     raise Undecided("%s: unaryExpr with %s" % (where, fu[0]))
-                return ("vec", Vec(v.base, v.fn + ("functor:" + fu[1],), v.perms, None, False))
+                return ("vec", Vec(v.base, v.fn + ("functor:" + fu[1],), v.perms, None, False, ()))
             if name == "asDiagonal":
                 return ("mat", v.diag_word())
             if name in ("fill", "setZero", "setConstant"):
@@ -505,6 +596,13 @@ class Interp:
         # --- matrices
         if val[0] == "mat":
             w = val[1]
+            if name == "diagonal":
+                if w in getattr(self, "diag_words", []):
+                    return ("vec", Vec("dm"))
+                return ("vec", Vec(self.fresh("diag")))
+            if name == "setIdentity" and o[0] == "loc":
+                self.store[o[1]] = ("mat", ())
+                return o
             if name == "transposeInPlace":
                 self.store[o[1]] = ("mat", w_transpose(w))
                 return o
@@ -528,6 +626,9 @@ class Interp:
                 rev = ("p", "REV", False)
                 return ("mat", (rev,) + val[2]) if val[1] == "colwise" else ("mat", val[2] + (rev,))
             raise Undecided("%s: %s().%s" % (where, val[1], name))
+        if val[0] == "uninit" and name == "setIdentity" and o[0] == "loc":
+            self.store[o[1]] = ("mat", ())
+            return o
         if val[0] in ("opaque", "uninit"):
             # error-bound arrays: fill / reverseInPlace / operator/= have no effect on the decomposition
             return ("opaque", "method " + str(name))
@@ -547,6 +648,19 @@ class Interp:
                 self.store[lhs[1]] = rhs
                 return lhs
             raise Undecided("%s: assignment of %s" % (where, rhs[0]))
+        if op == "*=" and self.rv(a[1])[0] == "scalar" and a[0][0] == "loc" and self.store[a[0][1]][0] in ("mat", "vec"):
+            y = self.rv(a[1])
+            if y[1] is None:
+                raise Undecided("%s: scaling by an unnamed scalar expression" % where)
+            cf = ("c", y[1], 1)
+            cur = self.store[a[0][1]]
+            if cur[0] == "mat":
+                self.store[a[0][1]] = ("mat", cur[1] + (cf,))
+            else:
+                v_ = cur[1]
+                keep = v_.order if (y[2] == "nonneg" or y[1] in self.scalar_pos) else None
+                self.store[a[0][1]] = ("vec", Vec(v_.base, v_.fn, v_.perms, keep, v_.nonneg, v_.scal + (cf,)))
+            return a[0]
         if op == "*=":
             lhs, rhs = a[0], a[1]
             rp = self.rv(rhs)
@@ -567,7 +681,7 @@ class Interp:
                     if cur[0] == "vec":
                         v = cur[1]
                         order = self.order_after(v, rp, pf)
-                        self.store[lhs[1]] = ("vec", Vec(v.base, v.fn, v.perms + (pf,), order, v.nonneg))
+                        self.store[lhs[1]] = ("vec", Vec(v.base, v.fn, v.perms + (pf,), order, v.nonneg, v.scal))
                         return lhs
                     if cur[0] in ("opaque", "uninit"):
                         return lhs
@@ -590,6 +704,33 @@ class Interp:
             if x[0] == "opaque" or y[0] == "opaque":
                 return ("opaque", "product")
             raise Undecided("%s: %s * %s" % (where, x[0], y[0]))
+        if op in ("/", "*") and self.rv(a[1])[0] == "scalar" and self.rv(a[0])[0] in ("mat", "vec"):
+            x, y = self.rv(a[0]), self.rv(a[1])
+            if y[1] is None:
+                raise Undecided("%s: scaling by an unnamed scalar expression" % where)
+            if op == "/" and y[1] not in self.scalar_pos:
+                self.risky.append("%s: division by `%s` (%s), which is not excluded to be zero on this path: for such input every "
+                                  "entry becomes NaN" % (where, y[1].split("@")[0], "a non-negative norm" if y[2] == "nonneg" else "a run-time value"))
+            cf = ("c", y[1], -1 if op == "/" else 1)
+            if x[0] == "mat":
+                return ("mat", x[1] + (cf,))
+            v_ = x[1]
+            return ("vec", Vec(v_.base, v_.fn, v_.perms, v_.order, v_.nonneg, v_.scal + (cf,)))
+        if op in ("*=", "/=") and self.rv(a[1])[0] == "scalar" and a[0][0] == "loc" and self.store[a[0][1]][0] in ("mat", "vec"):
+            y = self.rv(a[1])
+            if y[1] is None:
+                raise Undecided("%s: scaling by an unnamed scalar expression" % where)
+            if op == "/=" and y[1] not in self.scalar_pos:
+                self.risky.append("%s: division by `%s`, which is not excluded to be zero on this path" % (where, y[1].split("@")[0]))
+            cf = ("c", y[1], -1 if op == "/=" else 1)
+            cur = self.store[a[0][1]]
+            if cur[0] == "mat":
+                self.store[a[0][1]] = ("mat", cur[1] + (cf,))
+            else:
+                v_ = cur[1]
+                keep = v_.order if y[2] == "nonneg" or y[1] in self.scalar_pos else None
+                self.store[a[0][1]] = ("vec", Vec(v_.base, v_.fn, v_.perms, keep, v_.nonneg, v_.scal + (cf,)))
+            return a[0]
         if op in ("/=", "+=", "-="):
             lv = self.rv(a[0])
             if lv[0] in ("opaque", "uninit"):
